@@ -515,10 +515,10 @@ def run(ctx):
     import importlib
     hl = ['prod', 'x86base', 'p64', 'p32']
     hexes = session.build_exes({c: (c if c != 'x86base' else 'prod', 'opdrv.cpp', ['--x86base'] if c == 'x86base' else []) for c in hl})
-    hl2 = ['prod', 'p64', 'p32']
+    hl2 = ['prod', 'x86base', 'p64', 'p32']
     layers = [(m, 'opdrv.cpp', hl, hexes, [0, 5, 10]) for m in ('c04', 'c05', 'c06')] + [(m, 'opdrv.cpp', hl, hexes, [0, 9]) for m in ('c01', 'c07', 'c08', 'c09', 'c10')]
-    wexes = session.build_exes({c: (c, 'wkd_drv.cpp', []) for c in hl2})
-    sexes = session.build_exes({c: (c, 'scheme_drv.cpp', []) for c in hl2})
+    wexes = session.build_exes({c: (c if c != 'x86base' else 'prod', 'wkd_drv.cpp', ['--x86base'] if c == 'x86base' else []) for c in hl2})
+    sexes = session.build_exes({c: (c if c != 'x86base' else 'prod', 'scheme_drv.cpp', ['--x86base'] if c == 'x86base' else []) for c in hl2})
     layers += [(m, 'wkd_drv.cpp', hl2, wexes, [0, 9, 13]) for m in ('c11', 'c13', 'c14')] + [('c16', 'scheme_drv.cpp', hl2, sexes, [0, 5])]
     # the layers run side by side, one process each (every process forks its own shard pool)
     import multiprocessing as mp
